@@ -62,20 +62,21 @@ type wsConn struct {
 }
 
 type relayInst struct {
-	hung       int // consecutive operations that timed out
-	closed     chan struct{}
-	hub        *crossbar.Hub
-	cs         *ttlcode.CodeStore
-	ds         *deny.Store
-	denyCh     chan string
-	accessPort int
-	wsPort     int // the wrapper port in front of http.DefaultServeMux
-	wrap       *http.Server
-	codes      []string
-	conns      []*wsConn
-	done       chan string // request paths whose serveWs handler returned
-	now        *int64
-	nowMu      *sync.Mutex
+	floodAlternate bool // lag scenarios: alternate text and binary frames
+	hung           int  // consecutive operations that timed out
+	closed         chan struct{}
+	hub            *crossbar.Hub
+	cs             *ttlcode.CodeStore
+	ds             *deny.Store
+	denyCh         chan string
+	accessPort     int
+	wsPort         int // the wrapper port in front of http.DefaultServeMux
+	wrap           *http.Server
+	codes          []string
+	conns          []*wsConn
+	done           chan string // request paths whose serveWs handler returned
+	now            *int64
+	nowMu          *sync.Mutex
 }
 
 func freePort() int {
@@ -635,6 +636,9 @@ func relayOp(r *relayInst, fs []string) string {
 		}
 		w.c.SetCloseHandler(func(code int, text string) error { return nil }) // never answers a close frame
 		return "ok"
+	case fs[0] == "floodtypes" && len(fs) == 2:
+		r.floodAlternate = fs[1] == "alternate"
+		return "ok"
 	case fs[0] == "flood" && len(fs) == 5:
 		// flood n<k> <count> <size> <tag>: <count> self-describing records (one per frame) of <size> body bytes
 		w := r.conn(fs[1])
@@ -647,7 +651,11 @@ func relayOp(r *relayInst, fs []string) string {
 		sent := 0
 		for q := 0; q < count; q++ {
 			_ = w.c.SetWriteDeadline(time.Now().Add(5 * time.Second))
-			if err := w.c.WriteMessage(websocket.BinaryMessage, lagRecord(byte(tag), w.floodSeq, size)); err != nil {
+			mt := websocket.BinaryMessage
+			if r.floodAlternate && w.floodSeq%2 == 1 {
+				mt = websocket.TextMessage
+			}
+			if err := w.c.WriteMessage(mt, lagRecord(byte(tag), w.floodSeq, size)); err != nil {
 				break
 			}
 			w.floodSeq++
